@@ -133,6 +133,9 @@ def full_alphabet(st=None, hist=None, *, with_alias=True):
                     ["ps", ["shift", col(T, "x"), 1, None, {"partition_by": [col(T, "g")], "arrange": [["desc", ["nulls_first", col(T, "x")]], kT]}]]]],
         ["join", {"src": "R"}, "left", [["and", ["eq", kT, col("R", "k")], ["gt", col(T, "x"), lit(2)]]]],  # equality + inequality
         ["mutate", [["hm", ["hmax", col(T, "g"), col(T, "x"), kT]], ["hn", ["hmin", col(T, "x"), col(T, "g"), lit(3)]]]],  # row-wise max / min of three
+        ["slice_head", 5, 3],  # (after slice_head(2): an offset beyond the rows that are left)
+        # the filter of the right operand of an inner join ends up in the WHERE clause of the join
+        ["join", {"src": "U", "hist": [["filter", [["gt", col("U", "x"), lit(2)]]]]}, "inner", [["eq", kT, col("U", "k")]]],
         ["select", [Cn("g"), Cn("x")]],  # hides k (e.g. the column the table is ordered by)
         ["select", [Cn("s"), Cn("b"), Cn("f"), Cn("x"), Cn("g"), Cn("k")]],  # a pure permutation of all columns
     ]
